@@ -9,6 +9,10 @@ EXTENDS Integers, Sequences, FiniteSets, TLC, Json
 \* contexts as in Selectors.tla
 Dict(m) == [k |-> "D", m |-> m]
 LInt(n, v) == [k |-> "L", t |-> "int", n |-> n, v |-> v]
+LStr(v) == [k |-> "L", t |-> "str", n |-> 0, v |-> v]
+LNone == [k |-> "L", t |-> "none", n |-> 0, v |-> "None"]
+LFalse == [k |-> "L", t |-> "bool", n |-> 0, v |-> "False"]
+LList == [k |-> "L", t |-> "list", n |-> 0, v |-> "[]"]
 Empty == Dict(<<>>)
 Absent == [k |-> "A"]
 IsDict(c) == c.k = "D"
